@@ -68,6 +68,65 @@ func genC04(tier string, seed int64) (*Family, error) {
 		fmt.Fprintf(&b, "\n// sort model, a rule fails in its top-level return expression, %d rules\nfunc %s() {\n\tn := %d\n\ts := symSal(n)\n\tz := symVals(\"z\", n)\n\tf := make([]bool, n)\n\tfor i := range f {\n\t\tf[i] = z[i] == 0\n\t}\n\tb := vnd.Bool(\"b\")\n\tdc := newDC(nil)\n\taddVals(dc, \"z\", z)\n\trb := buildText(dc, rulesTextRetFail(n, s))\n\teng := engine.NewGengine()\n\terr := eng.Execute(rb, b)\n\tvnd.Reach(\"executed\")\n\tcheckSortedStarts(vnd.Trace(), n, allTrue(n), s, nil, f, b, err)\n\tres, _ := eng.GetRulesResultMap()\n\tfor i := 0; i < n; i++ {\n\t\tif vnd.Count(sname(i)) == 1 {\n\t\t\t_, has := res[\"r\"+strconv.Itoa(i)]\n\t\t\tvnd.Assert(vnd.Iff(has, !f[i]), \"a failing return expression yields no value, a successful one does\")\n\t\t}\n\t}\n}\n", n, name, n)
 		fam.Instances = append(fam.Instances, Instance{Func: name, Stratum: "Execute:return-fault", Desc: fmt.Sprintf("sort model, failing return expression, %d rules", n), Expect: []string{"executed"}})
 	}
+	// the set was extended by an incremental build (and shrunk by a removal) before it runs
+	for n := 1; n <= 2; n++ {
+		name := fmt.Sprintf("H_IncrementalThenExecute_%d", n)
+		fmt.Fprintf(&b, `
+// %d rules built, one more added incrementally, then the sort model
+func %s() {
+	n := %d
+	s := symSal(n + 1)
+	f := symFlags("f", n+1)
+	b := vnd.Bool("b")
+	rb := build(n, s[:n], f)
+	vnd.ExploreMapOrder(true)
+	must(rb.BuildRuleWithIncremental(oneRule(n, s[n], "")), "incremental build")
+	vnd.ExploreMapOrder(false)
+	eng := engine.NewGengine()
+	err := eng.Execute(rb, b)
+	vnd.Reach("executed")
+	checkSorted(vnd.Trace(), n+1, allTrue(n+1), s, f, b, err)
+	if n >= 2 {
+		mark := len(vnd.Trace())
+		must(rb.RemoveRules([]string{"r0"}), "removal")
+		err = eng.Execute(rb, b)
+		cand := allTrue(n + 1)
+		cand[0] = false
+		checkSorted(vnd.Trace()[mark:], n+1, cand, s, f, b, err)
+	}
+}
+`, n, name, n)
+		fam.Instances = append(fam.Instances, Instance{Func: name, Stratum: "Execute:incremental", Desc: fmt.Sprintf("sort model over %d built + 1 incrementally added rule, then after a removal", n), Expect: []string{"executed"}})
+	}
+	// a rule that sets the stop tag and then fails: the failure still counts
+	for n := 1; n <= 2; n++ {
+		name := fmt.Sprintf("H_StopTagSetAndFail_%d", n)
+		fmt.Fprintf(&b, `
+// sort model with stop tag, %d rules, symbolic tag setters
+func %s() {
+	n := %d
+	s := symSal(n)
+	f := symFlags("f", n)
+	t := symFlags("t", n)
+	b := vnd.Bool("b")
+	stag := &engine.Stag{}
+	dc := newDC(f)
+	addFlags(dc, "t", t)
+	dc.Add("stag", stag)
+	rb := buildText(dc, rulesTextOpt(n, s, "t"))
+	eng := engine.NewGengine()
+	var err error
+	if vnd.Bool("selected") {
+		err = eng.ExecuteSelectedRulesWithControlAndStopTag(rb, b, stag, %s)
+	} else {
+		err = eng.ExecuteWithStopTagDirect(rb, b, stag)
+	}
+	vnd.Reach("executed")
+	checkSortedTag(vnd.Trace(), n, allTrue(n), s, t, f, b, err)
+}
+`, n, name, n, namesLit(n))
+		fam.Instances = append(fam.Instances, Instance{Func: name, Stratum: "stop-tag", Desc: fmt.Sprintf("sorted stop-tag variants, %d rules, a rule may set the tag and fail", n), Expect: []string{"executed"}})
+	}
 	// a selected call must leave the builder's sorted list intact for the next call
 	for k, call := range []string{
 		"eng.ExecuteSelectedRules(rb, names)", "eng.ExecuteSelectedRulesWithControl(rb, true, names)", "eng.ExecuteSelectedRulesWithControlAsGivenSortedName(rb, true, names)",
